@@ -30,7 +30,7 @@ WEIGHTS.update({"svd": 0.6, "factor_recombine": 0.6, "eigh_gram": 0.4, "observe"
 
 
 def budget(tier):
-    return 3000 if tier == "quick" else 40000
+    return 12000 if tier == "quick" else 60000
 
 
 def after_op(w, task, rec, outs):
